@@ -21,6 +21,7 @@ EXTENDS Integers, Sequences, FiniteSets, TLC
 CONSTANTS Kinds,        \* sequence of request kinds, one per caller: "pub1" | "pub2" | "sub" | "unsub"
           ForeignIds,   \* identifiers no caller uses
           MaxSends,     \* bound on acknowledgements the broker sends
+          SendSet,      \* the <<ack kind, id>> pairs the broker may send (all of them in the exhaustive instances)
           BugKindOnly,  \* reader picks any waiter of the acknowledgement's kind (ignores the identifier)
           BugIdOnly,    \* reader ignores the kind
           BugNoDelete   \* reader does not remove the waiter entry
@@ -82,7 +83,8 @@ Send(k, id) ==
      w' = IF t[1] = "none" THEN w ELSE [w EXCEPT ![t[1]][t[2]] = "filled"]
   /\ UNCHANGED <<pc, got>>
 
-Next == (\E c \in Callers : Request(c) \/ Wake1(c) \/ Wake2(c)) \/ (\E k \in AckKinds, i \in AllIds : Send(k, i))
+Next == (\E c \in Callers : Request(c) \/ Wake1(c) \/ Wake2(c)) \/ (\E p \in SendSet : Send(p[1], p[2]))
+AllSends == AckKinds \X AllIds
 Spec == Init /\ [][Next]_vars /\ WF_vars(\E c \in Callers : Request(c) \/ Wake1(c) \/ Wake2(c))
 
 \* ---- C07 ----
